@@ -10,6 +10,7 @@ import (
 	"encoding/hex"
 	"errors"
 	"fmt"
+	"math"
 	"net/netip"
 	"sync"
 	"sync/atomic"
@@ -187,6 +188,9 @@ func (s *icmpDriver) handleProbeLayers(parser *packets.FrameParser) (*common.Pro
 			if uint16(echo.ID) != s.echoID {
 				return nil, &common.BadPacketError{Err: fmt.Errorf("mismatched echo ID")}
 			}
+			if echo.Seq > math.MaxUint8 {
+				return nil, &common.BadPacketError{Err: fmt.Errorf("echo sequence %d is not one of our TTLs", echo.Seq)}
+			}
 			rtt, err := s.getRTTFromRelSeq(uint8(echo.Seq))
 			if err != nil {
 				return nil, &common.BadPacketError{Err: fmt.Errorf("icmpDriver failed to get RTT: %w", err)}
@@ -200,6 +204,9 @@ func (s *icmpDriver) handleProbeLayers(parser *packets.FrameParser) (*common.Pro
 		case layers.ICMPv4TypeEchoReply:
 			if parser.ICMP4.Id != s.echoID {
 				return nil, &common.BadPacketError{Err: fmt.Errorf("mismatched echo ID")}
+			}
+			if parser.ICMP4.Seq > math.MaxUint8 {
+				return nil, &common.BadPacketError{Err: fmt.Errorf("echo sequence %d is not one of our TTLs", parser.ICMP4.Seq)}
 			}
 			rtt, err := s.getRTTFromRelSeq(uint8(parser.ICMP4.Seq))
 			if err != nil {
@@ -242,6 +249,9 @@ func (s *icmpDriver) handleProbeLayers(parser *packets.FrameParser) (*common.Pro
 			if echo.Identifier != s.echoID {
 				return nil, &common.BadPacketError{Err: fmt.Errorf("mismatched echo ID")}
 			}
+			if echo.SeqNumber > math.MaxUint8 {
+				return nil, &common.BadPacketError{Err: fmt.Errorf("echo sequence %d is not one of our TTLs", echo.SeqNumber)}
+			}
 			rtt, err := s.getRTTFromRelSeq(uint8(echo.SeqNumber))
 			if err != nil {
 				return nil, &common.BadPacketError{Err: fmt.Errorf("icmpDriver failed to get RTT: %w", err)}
@@ -261,6 +271,9 @@ func (s *icmpDriver) handleProbeLayers(parser *packets.FrameParser) (*common.Pro
 			seq := binary.BigEndian.Uint16(payload[2:4])
 			if id != s.echoID {
 				return nil, &common.BadPacketError{Err: fmt.Errorf("mismatched echo ID")}
+			}
+			if seq > math.MaxUint8 {
+				return nil, &common.BadPacketError{Err: fmt.Errorf("echo sequence %d is not one of our TTLs", seq)}
 			}
 			rtt, err := s.getRTTFromRelSeq(uint8(seq))
 			if err != nil {
